@@ -3,7 +3,8 @@
 //! `p_nested_iter <exf o|r> <outer p|w|f> <pre> [konly]`
 //!   exf   o = SignalOnly, r = WithRawSiginfo
 //!   outer p = drain `pending()`, w = drain `wait()` (needs a pre delivery), f = `forever().next()`
-//!           (one item; needs a pre delivery), a = `add_signal(SIGUSR2)` with SIGUSR2 delivered at the boundary, d = `drop(instance)`
+//!           (one item; needs a pre delivery), c = `close()` of ANOTHER instance (watching SIGWINCH): a delivery for this
+//!           instance while the library is busy with a different one, a = `add_signal(SIGUSR2)` with SIGUSR2 delivered at the boundary, d = `drop(instance)`
 //!   pre   deliveries made before the outer call: a string over {s, t} (s = SIGUSR1, t = SIGUSR2)
 //!
 //! The outer call is single-stepped (x86 trap flag).  At EVERY trap the process forks: the child
@@ -166,6 +167,8 @@ where
     E: Exfiltrator,
     E::Output: Item,
 {
+    // outer c: another, unrelated instance whose handle is closed while the delivery for THIS instance arrives
+    let other = if outer == "c" { Some(signal_hook::iterator::Signals::new(&[libc::SIGWINCH]).unwrap()) } else { None };
     let fds0 = open_fds();
     let mut signals = SignalsInfo::with_exfiltrator(&[S, T], exf).unwrap();
     let new: Vec<i32> = open_fds().into_iter().filter(|fd| !fds0.contains(fd)).collect();
@@ -222,6 +225,12 @@ where
             for x in signals.wait() {
                 got_outer.push(x.describe());
             }
+            after_call();
+        }
+        "c" => {
+            let h = other.as_ref().unwrap().handle();
+            unsafe { trap_flag_on() };
+            h.close();
             after_call();
         }
         _ => {
